@@ -12,6 +12,8 @@ import Sqfs.Proofs.TarSparse
 import Sqfs.Proofs.TarSparseChunk
 import Sqfs.Proofs.TarConv
 import Sqfs.Proofs.TarHeaderFull
+import Sqfs.Proofs.TarFixIter
+import Sqfs.Proofs.TarFixConv
 namespace Sqfs.C04
 open Sqfs.Tar
 
@@ -451,24 +453,79 @@ theorem implicit_parents (o : ConvOpts) (t t' : List TNode) (e : CEntry) (h : ad
 
 /-! ## fix-point -/
 
-/-
-Full statement (NOT proved in Lean; decided by execution on every run — `c04_tools` sub-check C):
+/--
+**Fix-point, entry level** (full strength).  Let `t` be the flat tree of an image (`FromImage`, `Sqfs/Spec/TarFix.lean`:
+clean distinct paths, parents before children, 32-bit ids and times, links with targets, no sockets) and `t[i]` any of its
+nodes.  Then
 
-  fixpoint : ∀ img opts, let img2 := tar2sqfs opts (sqfs2tar opts img); let img3 := tar2sqfs opts (sqfs2tar opts img2);
-      img3 = img2 (byte for byte) ∧ tree img2 = tree img (minus sockets)
-
-It needs the image serializer and reader (C01), the determinism of packing (C02) and hard-link resolution (C07) composed
-with the models of this file; that composition is not done.  Proved here is the tree-level core: an entry that comes
-back out of an image (time stamp inside the 32-bit range, non-empty canonical name) passes through `process_tarball`
-unchanged, so the second conversion builds its tree from exactly the entries of the first; and the clamp is idempotent.
+1. sqfs2tar writes a member for it (`write_tar_header` accepts the entry; for a regular file the data and padding follow);
+2. wherever that member stands in an archive, tar2sqfs's iterator (`read_header`, `canonicalize_name`, the file stream read to
+   its end) reports exactly the node: canonical name, mode, ids, time stamp, link target, the complete file content, the
+   xattrs in stored order — and stands in front of whatever follows the member;
+3. `process_tarball` (clamp, root handling, `fstree_add_generic`) applied to that report on the tree built from the nodes
+   before it appends exactly `t[i]`: no implicit parent is created, nothing is overwritten, no attribute changes.
 -/
-theorem fixpoint_entry_level_partial (o : ConvOpts) (e : CEntry) (h : o.rootBecomes = none) (hk : o.keepTime = true)
-    (hm : 0 ≤ e.mtime ∧ e.mtime ≤ 4294967295) (hn : e.name ≠ []) :
-    processEntry o e = .node e ∧ clampMtime (clampMtime e.mtime) = clampMtime e.mtime := by
-  have hc : clampMtime e.mtime = e.mtime := (mtime_clamp e.mtime).2.2.1 hm.1 hm.2
-  refine ⟨?_, by rw [hc, hc]⟩
-  unfold processEntry processEntryWith
-  simp only [h, hn, hk, hc, if_false, if_true]
+theorem fixpoint_entry_level (img : ImgData) (t : List TNode) (h : FromImage img t) (i : Nat) (hi : i < t.length)
+    (counter : Nat) (rest : Bytes) (devs : List (List Bytes × Nat × Nat)) :
+    ∃ b, entryBytes img t[i] counter = some b ∧
+      (∃ x s1 k1, IterEntry.view x = viewOf img t[i] ∧ s1.drop k1 = rest ∧
+        ∀ f s0 k acc, s0.drop k = b ++ rest →
+          iterLoop {} 512 (f + 1) s0 k acc = iterLoop {} 512 f s1 k1 (acc ++ [x])) ∧
+      (∀ x, IterEntry.view x = viewOf img t[i] →
+        convStep processEntry {} (some (t.take i, devs)) x =
+          some (t.take (i + 1), devs ++ [(t[i].path, (viewOf img t[i]).devMajor, (viewOf img t[i]).devMinor)])) := by
+  have hn := h.nodes t[i] (List.getElem_mem hi)
+  obtain ⟨hd, _, _, hb⟩ := entryBytes_some img t[i] counter hn
+  refine ⟨_, hb, iterLoop_node img t[i] counter 512 (by omega) hn _ rest hb, ?_⟩
+  intro x hx
+  rw [List.take_succ_eq_append_getElem hi]
+  apply convStep_node img t[i] (t.take i) devs x hx hn
+  · intro m hm
+    obtain ⟨j, hj, hji, rfl⟩ := (mem_take_iff t i m).1 hm
+    intro heq
+    have := h.distinct j i hj hi heq
+    omega
+  · intro k h0 hk
+    obtain ⟨j, hj, hji, hp, hd⟩ := h.parents i hi k h0 hk
+    refine ⟨t[j], ?_, hd⟩
+    rw [← hp]
+    apply lookup_of_unique
+    · exact (mem_take_iff t i _).2 ⟨j, hj, hji, rfl⟩
+    · intro a ha hpa
+      obtain ⟨j', hj', _, rfl⟩ := (mem_take_iff t i a).1 ha
+      have := h.distinct j' j hj' hj hpa
+      subst this; rfl
+
+/--
+**Fix-point, tree level**: `tar2sqfs ∘ sqfs2tar` is the identity on the trees of images.  For every `FromImage` tree the
+archive sqfs2tar writes (all members, then `terminate_archive`) is read by tar2sqfs's iterator as exactly the image's nodes
+with their contents and xattrs, then end of archive; and converting it rebuilds exactly the tree (same nodes, same order, same
+device numbers).  Hence converting once more changes nothing (`fixpoint_idempotent`).
+
+Byte-exactness of the *image* (`sha256(img2) = sha256(img3)`) additionally needs that the serializer is a function of this
+tree and of the file contents (C01 `serialize`, C02 determinism of the block processor) and the hard-link resolution (C07);
+those are separate properties and are not composed here — the byte-level statement stays decided by execution
+(`c04_tools` sub-check C).
+-/
+theorem fixpoint_tree_level (img : ImgData) (t : List TNode) (h : FromImage img t) :
+    tar2sqfsTree {} (sqfs2tar img t) = some (t, devsOf img t) ∧
+    ∃ es, iterate (sqfs2tar img t) = (es, .eof) ∧ es.map IterEntry.view = t.map (viewOf img) := by
+  obtain ⟨es, hit, hv⟩ := iterate_sqfs2tar img t h.nodes
+  refine ⟨?_, es, hit, hv⟩
+  unfold tar2sqfsTree
+  rw [hit]
+  simp only [ne_eq, not_true_eq_false, if_false]
+  exact convert_fromImage img t h es hv
+
+/-- … and therefore the conversion is idempotent on trees: whatever tree the first round produced, a second round
+    (`img → tar → img2 → tar → img3`) reproduces it -/
+theorem fixpoint_idempotent (img : ImgData) (t t2 : List TNode) (d2 : List (List Bytes × Nat × Nat)) (h : FromImage img t)
+    (h2 : tar2sqfsTree {} (sqfs2tar img t) = some (t2, d2)) :
+    t2 = t ∧ tar2sqfsTree {} (sqfs2tar img t2) = some (t2, d2) := by
+  have h1 := (fixpoint_tree_level img t h).1
+  rw [h1] at h2
+  obtain ⟨rfl, rfl⟩ := Prod.mk.inj (Option.some.inj h2)
+  exact ⟨rfl, h1⟩
 
 /-! ### layout facts the models rely on, re-checked against `include/tar/format.h` on every run
 (`Sqfs/Generated/Consts.lean` is regenerated from the working tree; a changed offset or width breaks this build) -/
@@ -505,5 +562,79 @@ example : writeNumberSigned (-1) 12 = [128, 0, 0, 0, 255, 255, 255, 255, 255, 25
 example : (readNumber (List.replicate 12 255)).map toSigned = some (-1) := by decide
 /-- the width-8 restriction of `number_roundtrip` is sharp: `0x7F·2^56` does not survive an 8-byte field -/
 example : readNumber (writeNumber (127 * 2 ^ 56) 8) = some (255 * 2 ^ 56) := by decide
+
+/-! #### header round trip: the hypotheses are satisfiable, and the statement evaluated on a concrete entry
+(name of exactly 100 bytes → GNU 'L' record; uid needing base-256, gid needing 8 unterminated octal digits, negative mtime;
+two xattrs, one with '=' and '%' in the key and NUL, '=', newline, 0xFF in the value) -/
+
+abbrev exEntry : WEntry := ⟨List.replicate 100 97, 0o100644, 16777216, 2097152, 5, -1, 0, 0, false⟩
+abbrev exXs : List (Bytes × Bytes) := [(ascii "user.a=b%", [0, 61, 10, 255]), (ascii "user.k", [])]
+
+set_option maxRecDepth 100000 in
+example : Encodable exEntry none exXs :=
+  { nameNul := by decide, tgtNul := by decide, keyNul := by decide, size := by decide, mtime := by decide, uid := by decide,
+    gid := by decide, dev := by decide, nameLen := by decide, tgtLen := by decide, paxLen := by decide, slink := by decide,
+    hlink := by decide }
+
+set_option maxRecDepth 1000000 in
+set_option maxHeartbeats 2000000 in
+example : (writeTarHeader exEntry none exXs 7).map (fun w => match readHeader (w ++ [1, 2, 3]) with
+    | .ok d r => decide (d = decodedOf exEntry none exXs.reverse ∧ r = [1, 2, 3])
+    | _ => false) = some true := by decide
+
+/-- a socket is refused, nothing is written -/
+example : writeTarHeader ⟨ascii "s", 0o140755, 0, 0, 0, 0, 0, 0, false⟩ none [(ascii "user.x", [1])] 0 = none := by decide
+
+/-! #### fix-point: a concrete `FromImage` tree (directory, file with content and two xattrs, symlink, device, hard link),
+and both conversions evaluated on it -/
+
+abbrev exImg : ImgData :=
+  { content := fun p => if p = [ascii "d", ascii "f"] then [104, 105, 0] else [],
+    xattr := fun p => if p = [ascii "d", ascii "f"] then [(ascii "user.a=b", [1, 0]), (ascii "user.c", [])] else [],
+    dev := fun p => if p = [ascii "null"] then (1, 3) else (0, 0) }
+abbrev exTree : List TNode :=
+  [ ⟨[ascii "d"], 0o040755, 0, 0, 1700000000, false, false, none⟩,
+    ⟨[ascii "d", ascii "f"], 0o100644, 1000, 1000, 4294967295, false, false, none⟩,
+    ⟨[ascii "d", ascii "l"], 0o120777, 0, 0, 0, false, false, some (ascii "../x y")⟩,
+    ⟨[ascii "null"], 0o020666, 0, 0, 5, false, false, none⟩,
+    ⟨[ascii "h"], 0o120777, 1000, 1000, 4294967295, false, true, some (ascii "d/f")⟩ ]
+
+set_option maxRecDepth 100000 in
+example : FromImage exImg exTree where
+  nodes := by
+    intro n hn
+    simp only [exTree, List.mem_cons, List.not_mem_nil, or_false] at hn
+    rcases hn with rfl | rfl | rfl | rfl | rfl
+    all_goals exact
+      { pathNe := by decide, comps := by decide, kind := by decide, explicit := by decide, uid := by decide, gid := by decide,
+        mtime := by decide, lnkMode := by decide, hardMode := by decide,
+        lnkTarget := by first | (intro h; exact absurd h (by decide)) | (intro _; exact ⟨_, rfl, by decide, by decide⟩),
+        hardTarget := by first | (intro h; exact absurd h (by decide)) | (intro _; exact ⟨_, rfl, by decide⟩),
+        noTarget := by decide, dev := by decide, nameLen := by decide, contentLen := by decide, keyNul := by decide,
+        paxLen := by decide }
+  distinct := by
+    intro i j hi hj h
+    have hnd : (exTree.map (·.path)).Nodup := by decide
+    have := (List.getElem_inj (xs := exTree.map (·.path)) (i := i) (j := j) (h₀ := by simpa using hi) (h₁ := by simpa using hj) hnd).1
+      (by rw [List.getElem_map, List.getElem_map]; exact h)
+    exact this
+  parents := by
+    intro i hi k h0 hk
+    have hi' : i < 5 := hi
+    rcases i with _ | _ | _ | _ | _ | i
+    · simp [exTree] at hk; omega
+    · have : k = 1 := by simp [exTree] at hk; omega
+      subst this
+      exact ⟨0, by decide, by decide, rfl, rfl⟩
+    · have : k = 1 := by simp [exTree] at hk; omega
+      subst this
+      exact ⟨0, by decide, by decide, rfl, rfl⟩
+    · simp [exTree] at hk; omega
+    · simp [exTree] at hk; omega
+    · omega
+
+set_option maxRecDepth 1000000 in
+set_option maxHeartbeats 4000000 in
+example : tar2sqfsTree {} (sqfs2tar exImg exTree) = some (exTree, devsOf exImg exTree) := by decide
 
 end Sqfs.C04
